@@ -236,6 +236,32 @@ func PanicText(f func()) (panicked bool, runtimeErr bool, msg string) {
 	return
 }
 
+// Track(tag) labels the heap accesses that follow (engine); Interference() is the number of
+// locations touched under two different tags (InterferenceG: by two goroutines), at least once
+// for writing, with no common lock.  Natively both are no-ops: witnesses are replayed under -race.
+// Par: (engine) runs f and then g, labelling their heap accesses 1 and 2; natively it runs them
+// concurrently in two goroutines (the replay binary is built with -race).
+func Par(f, g func()) {
+	done := make(chan struct{}, 2)
+	run := func(h func()) {
+		defer func() {
+			if r := recover(); r != nil {
+				fmt.Println("VF-PAR-PANIC", r)
+			}
+			done <- struct{}{}
+		}()
+		h()
+	}
+	go run(f)
+	go run(g)
+	<-done
+	<-done
+}
+
+func Track(tag int)      {}
+func Interference() int  { return 0 }
+func InterferenceG() int { return 0 }
+
 // KnownText: (engine) the text with parts that depend on symbolic data shown as "<?>" / '?';
 // natively the string itself.
 func KnownText(s string) string { return s }
